@@ -451,6 +451,178 @@ def _inline_contextmanagers(tree: ast.Module) -> int:
     return n_done
 
 
+def _inline_class_contextmanagers(tree: ast.Module) -> int:
+    """`with K(a, b) [as v]: BODY` for a small context-manager CLASS of the same module whose __init__ only stores its
+    arguments, whose __enter__ is straight-line and whose __exit__ never swallows:
+        <__enter__ statements>; [v = <what __enter__ returns>]
+        try: BODY
+        except BaseException: <the `if exc_type is not None:` part of __exit__>; raise
+        else: <the `if exc_type is None:` part>
+        finally: <the unconditional part>
+    with self.<field> replaced by the constructor argument.  Left alone when BODY can leave early (return / break /
+    continue) and __exit__ has a normal-exit part, or when __exit__ has any other shape."""
+    classes = {}
+    for c in [n for n in tree.body if isinstance(n, ast.ClassDef)]:
+        meths = {m.name: m for m in c.body if isinstance(m, ast.FunctionDef)}
+        if "__enter__" in meths and "__exit__" in meths:
+            classes[c.name] = meths
+    if not classes:
+        return 0
+    n_done = 0
+
+    def own_nodes(stmts):
+        stack = list(stmts)
+        while stack:
+            n = stack.pop()
+            yield n
+            if isinstance(n, (ast.FunctionDef, ast.AsyncFunctionDef, ast.Lambda, ast.ClassDef)):
+                continue
+            stack.extend(ast.iter_child_nodes(n))
+
+    def plan(meths):
+        init = meths.get("__init__")
+        fields = {}
+        params = []
+        if init is not None:
+            params = [a.arg for a in init.args.args][1:]
+            if init.args.vararg or init.args.kwarg or init.args.kwonlyargs:
+                return None
+            for st in init.body:
+                if isinstance(st, ast.Expr) and isinstance(st.value, ast.Constant):
+                    continue
+                if isinstance(st, ast.Assign) and len(st.targets) == 1 and isinstance(st.targets[0], ast.Attribute) and isinstance(st.targets[0].value, ast.Name) and st.targets[0].value.id == "self" and isinstance(st.value, ast.Name) and st.value.id in params:
+                    fields[st.targets[0].attr] = st.value.id
+                else:
+                    return None
+        ent, ext = meths["__enter__"], meths["__exit__"]
+        if len(ent.args.args) != 1 or len(ext.args.args) < 2 or ext.args.vararg:
+            return None
+        enter_stmts, enter_ret = [], None
+        for st in ent.body:
+            if isinstance(st, ast.Expr) and isinstance(st.value, ast.Constant):
+                continue
+            if isinstance(st, ast.Return):
+                enter_ret = st.value
+                break
+            if isinstance(st, (ast.If, ast.For, ast.While, ast.Try, ast.With)):
+                return None
+            enter_stmts.append(st)
+        et = ext.args.args[1].arg
+        exc_names = {a.arg for a in ext.args.args[1:]}
+        on_ok, on_err, always = [], [], []
+        for st in ext.body:
+            if isinstance(st, ast.Expr) and isinstance(st.value, ast.Constant):
+                continue
+            if isinstance(st, ast.Return):
+                if st.value is None or (isinstance(st.value, ast.Constant) and st.value.value in (False, None)):
+                    break
+                return None
+            if isinstance(st, ast.If) and isinstance(st.test, ast.Compare) and len(st.test.ops) == 1 and isinstance(st.test.left, ast.Name) and st.test.left.id == et \
+                    and isinstance(st.test.comparators[0], ast.Constant) and st.test.comparators[0].value is None and isinstance(st.test.ops[0], (ast.Is, ast.IsNot)):
+                a, b = (st.body, st.orelse) if isinstance(st.test.ops[0], ast.Is) else (st.orelse, st.body)
+                if any(isinstance(n, ast.Name) and n.id in exc_names for x in a + b for n in ast.walk(x)) or any(isinstance(n, ast.Return) for x in a + b for n in ast.walk(x)):
+                    return None
+                on_ok += a
+                on_err += b
+                continue
+            if any(isinstance(n, ast.Name) and n.id in exc_names for n in ast.walk(st)) or any(isinstance(n, (ast.Return, ast.Raise)) for n in ast.walk(st)):
+                return None
+            always.append(st)
+        return params, fields, enter_stmts, enter_ret, on_ok, on_err, always
+
+    plans = {k: plan(v) for k, v in classes.items()}
+
+    def rewrite(w):
+        if not (isinstance(w, ast.With) and len(w.items) == 1):
+            return None
+        it = w.items[0]
+        ce = it.context_expr
+        if not (isinstance(ce, ast.Call) and isinstance(ce.func, ast.Name) and plans.get(ce.func.id)):
+            return None
+        params, fields, enter_stmts, enter_ret, on_ok, on_err, always = plans[ce.func.id]
+        if ce.keywords and any(k.arg is None for k in ce.keywords) or any(isinstance(a, ast.Starred) for a in ce.args):
+            return None
+        if it.optional_vars is not None and not isinstance(it.optional_vars, ast.Name):
+            return None
+        bound = dict(zip(params, ce.args))
+        bound.update({k.arg: k.value for k in ce.keywords})
+        if set(params) - set(bound):
+            return None
+        if not all(isinstance(v, (ast.Name, ast.Attribute, ast.Constant)) for v in bound.values()):
+            return None         # arguments are re-read: only side-effect-free ones
+        early = any(isinstance(n, (ast.Return, ast.Break, ast.Continue)) for n in own_nodes(w.body))
+        if early and (on_ok or on_err):
+            return None
+
+        class S(ast.NodeTransformer):
+            def visit_Attribute(self, node):
+                self.generic_visit(node)
+                if isinstance(node.value, ast.Name) and node.value.id == "self" and node.attr in fields:
+                    return ast.copy_location(_copy(bound[fields[node.attr]]), node)
+                return node
+
+        def inst(stmts):
+            out = []
+            for st in stmts:
+                new = S().visit(ast.parse(ast.unparse(st)).body[0])
+                if any(isinstance(n, ast.Name) and n.id == "self" and not (isinstance(bound.get("self"), ast.AST)) for n in ast.walk(new)) and "self" not in [src_ for src_ in ()]:
+                    pass
+                out.append(new)
+            return out
+
+        # any remaining use of the manager's own `self` (beyond stored fields) cannot be expressed at the call site
+        def uses_self(stmts):
+            return any(isinstance(n, ast.Name) and n.id == "self" for st in stmts for n in ast.walk(st))
+        pre, ok_, err_, fin_ = inst(enter_stmts), inst(on_ok), inst(on_err), inst(always)
+        ret = S().visit(ast.parse(ast.unparse(enter_ret), mode="eval").body) if enter_ret is not None else ast.Constant(value=None)
+        # the class's methods talk about their own `self`; after substitution only field reads may remain
+        for group in (enter_stmts, on_ok, on_err, always, [ast.Expr(value=enter_ret)] if enter_ret is not None else []):
+            for st in group:
+                for n in ast.walk(st):
+                    if isinstance(n, ast.Name) and n.id == "self":
+                        par_ok = False
+                        for a in ast.walk(st):
+                            if isinstance(a, ast.Attribute) and a.value is n and a.attr in fields:
+                                par_ok = True
+                        if not par_ok:
+                            return None
+        bind = [ast.Assign(targets=[ast.Name(id=it.optional_vars.id, ctx=ast.Store())], value=ret)] if it.optional_vars is not None else []
+        body = list(w.body)
+        if ok_ or err_ or fin_:
+            handlers = [ast.ExceptHandler(type=ast.Name(id="BaseException", ctx=ast.Load()), name=None, body=err_ + [ast.Raise(exc=None, cause=None)])] if err_ else []
+            t = ast.Try(body=body, handlers=handlers, orelse=ok_ if (ok_ and handlers) else [], finalbody=fin_)
+            if ok_ and not handlers:
+                # no error part: the normal-exit part simply follows the body
+                t = ast.Try(body=body, handlers=[], orelse=[], finalbody=fin_) if fin_ else None
+                out = pre + bind + ([t] if t is not None else body) + ok_
+            else:
+                out = pre + bind + [t]
+        else:
+            out = pre + bind + body
+        for st in out:
+            if not any(st is x for x in w.body):
+                for n in ast.walk(st):
+                    if not any(n is y for b in w.body for y in ast.walk(b)):
+                        n.lineno = w.lineno
+                        n.col_offset = w.col_offset
+                        n.end_lineno = getattr(w, "end_lineno", w.lineno)
+                        n.end_col_offset = 0
+        return out or [ast.copy_location(ast.Pass(), w)]
+
+    class T(ast.NodeTransformer):
+        def visit_With(self, node):
+            self.generic_visit(node)
+            r = rewrite(node)
+            if r is None:
+                return node
+            nonlocal n_done
+            n_done += 1
+            return r
+
+    T().visit(tree)
+    return n_done
+
+
 def _isinstance_unions(tree: ast.Module) -> int:
     """isinstance(x, A | B | C)  ->  isinstance(x, (A, B, C))   (PEP 604 unions of classes in isinstance are the tuple)"""
     n_done = 0
@@ -669,6 +841,7 @@ def desugar(tree: ast.Module, rel=None) -> ast.Module:
     n_stack = _exitstack_to_try(tree)
     n_stack += _inline_new_constants(tree, rel) if rel is not None else 0
     n_stack += _inline_contextmanagers(tree)
+    n_stack += _inline_class_contextmanagers(tree)
     n_stack += _isinstance_unions(tree)
     n_stack += _isinstance_named_tuples(tree)
     n_stack += _dataclass_inits(tree)
